@@ -13,3 +13,4 @@ import SquidModel.Properties.C09
 #print axioms SquidModel.C09.every_stream_ends_in_response_or_close
 #print axioms SquidModel.C09.settled_connection_is_stable
 #print axioms SquidModel.C09.reading_has_buffer_space
+#print axioms SquidModel.C09.connection_runs_c21_parser
